@@ -399,6 +399,12 @@ def run_biglists(res, tier, seed):
     for n in (999, 1000, 1001, 2700):
         cases.append(("tx_%d_outputs" % n, R.RTx([(R.sha256d(b"in"), 0, ("sig", bytes(64)))], [(1 + i, pk) for i in range(n)])))
     cases.append(("tx_1001_inputs", R.RTx([(R.sha256d(b"in%d" % i), i, ("sig", bytes(64))) for i in range(1001)], [(5, pk)])))
+    # list lengths on both sides of every point where the deployed length encoding changes its width or gains its leading octet
+    for n in (62, 63, 64, 65, 126, 127, 128, 129, 255, 256, 8191, 8192, 8193):
+        if n <= 2700:
+            cases.append(("tx_%d_outputs" % n, R.RTx([(R.sha256d(b"in"), 0, ("sig", bytes(64)))], [(1 + i, pk) for i in range(n)])))
+        if n <= 1100:
+            cases.append(("tx_%d_inputs" % n, R.RTx([(R.sha256d(b"in%d" % i), i, ("sig", bytes(64))) for i in range(n)], [(5, pk)])))
     for name, t in cases:
         res.evaluations += 1
         res.nontrivial("big:" + name)
@@ -425,7 +431,19 @@ def run_biglists(res, tier, seed):
             res.fail("roundtrip", "roundtrip-changed:Block:long-list", "block with 1001 transactions (%d bytes): decode(encode(x)) != x" % len(enc), {"type": "Block", "big": "1001tx"})
     except Exception as e:
         res.fail("roundtrip", "roundtrip-decode-raised:Block:long-list", "block with 1001 transactions (%d bytes, within the size limit): encode/decode raised %r" % (len(blk.raw()), e), {"type": "Block", "big": "1001tx"})
-    res.sample({"long_lists": [c[0] for c in cases] + ["block_1001_transactions"]})
+    for n in (63, 64, 127, 128, 129, 8191, 8192):
+        res.evaluations += 1
+        res.nontrivial("big:inventory_%d" % n)
+        m = M.InventoryMessage([M.InventoryItem(M.DATA_BLOCK, R.sha256d(b"i%d" % i)) for i in range(n)])
+        try:
+            enc = m.serialize()
+            want = M.MSG_INVENTORY + b"\x00" + R.vlq(n) + b"".join(M.DATA_BLOCK + R.sha256d(b"i%d" % i) for i in range(n)) if hasattr(M, "MSG_INVENTORY") else None
+            dec = M.Message.deserialize(enc)
+            if dec.serialize() != enc or len(dec.items) != n or (want is not None and enc != want):
+                res.fail("roundtrip", "message-roundtrip-changed:InventoryMessage:long-list", "inventory with %d items does not round-trip / is not in the deployed encoding" % n, {"type": "InventoryMessage", "big": "inv%d" % n})
+        except Exception as e:
+            res.fail("roundtrip", "roundtrip-decode-raised:InventoryMessage:long-list", "inventory with %d items: encode/decode raised %r" % (n, e), {"type": "InventoryMessage", "big": "inv%d" % n})
+    res.sample({"long_lists": [c[0] for c in cases] + ["block_1001_transactions", "inventories of 63..8192 items"]})
 
 
 def run_ids(res, tier, seed):
